@@ -100,8 +100,9 @@ mod verif_rp_c10_session {
             (res.map_err(|e| format!("{e:?}")), ns, state.into_outcome())
         });
         let (mut alice_reader, mut alice_writer) = tokio::io::split(alice_io);
-        alice_writer.write_all(&bytes_of(ctx, seq, cut)).await.unwrap();
-        alice_writer.shutdown().await.unwrap();
+        // the side under test may have ended (and closed the stream) before the whole script is written: a closed pipe is not a finding
+        let _ = alice_writer.write_all(&bytes_of(ctx, seq, cut)).await;
+        let _ = alice_writer.shutdown().await;
         let joined = tokio::time::timeout(Duration::from_secs(10), task).await;
         let joined = match joined { Ok(j) => j, Err(_) => panic!("WITNESS {what}: still waiting after 10 s") };
         let (res, _ns, _outcome) = match joined { Ok(r) => r, Err(e) => panic!("WITNESS {what}: panicked ({e})") };
@@ -147,8 +148,8 @@ mod verif_rp_c10_session {
             res.map_err(|e| format!("{e:?}"))
         });
         let (_bob_reader, mut bob_writer) = tokio::io::split(bob_io);
-        bob_writer.write_all(&bytes_of(ctx, seq, cut)).await.unwrap();
-        bob_writer.shutdown().await.unwrap();
+        let _ = bob_writer.write_all(&bytes_of(ctx, seq, cut)).await;
+        let _ = bob_writer.shutdown().await;
         let joined = match tokio::time::timeout(Duration::from_secs(10), task).await { Ok(j) => j, Err(_) => panic!("WITNESS {what}: still waiting after 10 s") };
         let res = match joined { Ok(r) => r, Err(e) => panic!("WITNESS {what}: panicked ({e})") };
         if rep != Rep::Syncing { assert!(res.is_err(), "WITNESS {what}: replica is not syncing but the session reports success {res:?}"); }
